@@ -28,12 +28,13 @@ Pairs == <<
   <<"g", "label">>, <<"s1", "label">>, <<"L.1", "label">>, <<"L.1", "image">>, <<"L.2", "label">>, <<"M.1", "label">>, <<"s3", "label">>,
   <<"q1", "noapp">>, <<"U.1", "label">>, <<"g", "image">>, <<"q1", "rmsg">>,     \* U: a list on the choices sheet that no select reads
   <<"c1", "cmsg">>,                                                               \* c1: a calculate row (no control in the body) with bind messages
+  <<"M.2", "label">>,                                                             \* a second choice of the list the search() select s3 shows in line
   \* ---- the rest only when ~Core
   <<"q1", "audio">>, <<"g", "audio">>, <<"c1", "rmsg">>, <<"c1", "noapp">>,
   <<"q2", "label">>, <<"q2", "hint">>, <<"q2", "guidance">>, <<"q2", "cmsg">>, <<"q2", "rmsg">>, <<"q2", "image">>, <<"q2", "audio">>,
   <<"s1", "hint">>, <<"s2", "label">>, <<"s2", "hint">>, <<"s3", "hint">>,
   <<"L.1", "audio">>, <<"L.2", "image">>, <<"L.2", "audio">>, <<"M.1", "image">>, <<"M.1", "audio">> >>
-NCore == 17
+NCore == 18
 NPairs == IF Core THEN NCore ELSE Len(Pairs)
 Questions == {"q1", "q2", "s1", "s2", "s3"}   \* (s4, a randomized select on list L, always carries an unsuffixed label)
 BasePat(p) == IF p[2] = "label" THEN {""} ELSE {}
